@@ -22,14 +22,15 @@ import (
 // connections, relayed listeners, peer connections and client data connections are in-memory
 // streams.
 type tcpSys struct {
-	meta  Meta
-	seed  int64
-	net   *MemNet
-	srv   *turn.Server
-	lis   *MemListener
-	laddr *net.TCPAddr
-	step  int
-	nonce string
+	missingOwners []string // owners of the connections the last state check found missing
+	meta          Meta
+	seed          int64
+	net           *MemNet
+	srv           *turn.Server
+	lis           *MemListener
+	laddr         *net.TCPAddr
+	step          int
+	nonce         string
 
 	caddr   map[string]*net.TCPAddr
 	ctrl    map[string]*MemStream
@@ -771,6 +772,27 @@ func (s *tcpSys) Check(e Edge, obs []Obs) []Mismatch {
 	// ---- state -------------------------------------------------------------
 	ts, _ := e.TS.([]any)
 	ms = append(ms, s.checkState(ts)...)
+	// a request of one 5-tuple after which a connection of ANOTHER 5-tuple's allocation is gone
+	if c, _ := e.A["c"].(string); c != "" && name != "Advance" {
+		for _, o := range s.missingOwners {
+			if o != c {
+				ms = append(ms, Mismatch{"bystander", fmt.Sprintf("%v by %s: a peer connection of %s's allocation disappeared", name, c, o)})
+
+				break
+			}
+		}
+	}
+	// ConnectionBind arrives on a connection of its own (another 5-tuple by construction); the party is its user
+	if u, _ := e.A["u"].(string); name == "ConnectionBind" && len(ts) > 0 {
+		alloc, _ := ts[0].(map[string]any)
+		for _, o := range s.missingOwners {
+			if a, _ := alloc[o].(map[string]any); a != nil && a["user"] != u {
+				ms = append(ms, Mismatch{"bystander", fmt.Sprintf("ConnectionBind by user %s (refused): a peer connection of %s's allocation (user %v) disappeared", u, o, a["user"])})
+
+				break
+			}
+		}
+	}
 	// a Connect / inbound connection of client c that the specification lets through but the server refuses
 	// while ANOTHER 5-tuple holds a connection to the same peer: the answer depended on a foreign allocation
 	if c, _ := e.A["c"].(string); len(ms) > 0 && (name == "Connect" || name == "PeerConnect") && c != "" {
@@ -905,9 +927,11 @@ func (s *tcpSys) checkState(ts []any) []Mismatch {
 			}
 		}
 	}
+	s.missingOwners = nil
 	for alias := range wantConns {
 		if !seen[alias] {
 			ms = append(ms, Mismatch{"tcp.conn-", fmt.Sprintf("connection %d missing from the server's table", alias)})
+			s.missingOwners = append(s.missingOwners, fmt.Sprint(wantConns[alias]["owner"]))
 		}
 	}
 	if n := s.srv.AllocationCount(); n != live && len(ms) == 0 {
